@@ -23,10 +23,15 @@ DoScript(e) == /\ script' = e.decls
                /\ omust' = Objs(e.decls) /\ omay' = Objs(e.decls)
 DoConfigure(e) == Need(e.exit = 0, "ConfigureSucceeds", e.exit) /\ UNCHANGED <<script, must, may, omust, omay>>
 
+\* the archive half of a dual-use library follows its objects (not the libraries the shared half links)
+ArOf(P(_)) == { ArName(n) : n \in { m \in Duals(script) : \E o \in Objs(script) : o[1] = m /\ P(o) } }
+ObjHitByFile(o, f, mode) == \/ ObjReadsFile(script, o, f) \/ (o[2].t # "" /\ ReadsFile(script, o[2].t, f, mode))
+                            \/ (\E h \in TargetsOf(Decl(script, o[1]).ins) \cup CDeps(script, o) : ReadsFile(script, h, f, mode))
 AlwaysDown(mode) == UNION { DownTarget(script, a, mode) : a \in Always(script) }
+                    \cup ArOf(LAMBDA o : \E a \in Always(script) : ObjReadsTarget(script, o, a))
 DoBuild(e) ==
-  LET nmust == NeededMust(script, e.goal) \cap Acts(script)
-      nmay == Needed(script, e.goal) \cap Acts(script)
+  LET nmust == (NeededMust(script, e.goal) \cap Acts(script)) \cup ArNeeded(script, e.goal)
+      nmay == (Needed(script, e.goal) \cap Acts(script)) \cup ArNeeded(script, e.goal)
       ran == ToSet(e.ran)
       mustrun == (must \cup (AlwaysDown("must") \ SymCopies(script))) \cap nmust
       mayrun == (may \cup AlwaysDown("may")) \cap nmay
@@ -46,7 +51,9 @@ DoBuild(e) ==
 DoTouch(e) ==
   /\ IF e.f # ""
        THEN /\ must' = must \cup ((DownFile(script, e.f, "must") \cap Acts(script)) \ SymCopies(script))
+                            \cup ArOf(LAMBDA o : ObjHitByFile(o, e.f, "must"))
             /\ may' = may \cup (DownFile(script, e.f, "may") \cap Acts(script))
+                          \cup ArOf(LAMBDA o : ObjHitByFile(o, e.f, "may"))
             \* objects compiled from the file (or from a header it is included by), and objects compiled
             \* from a generated source whose generating step is downstream of the file
             /\ omust' = omust \cup { o \in Objs(script) : ObjReadsFile(script, o, e.f) \/ (o[2].t # "" /\ ReadsFile(script, o[2].t, e.f, "must"))
@@ -55,7 +62,9 @@ DoTouch(e) ==
                                                        \/ (\E h \in TargetsOf(Decl(script, o[1]).ins) \cup CDeps(script, o) : ReadsFile(script, h, e.f, "may")) }
        ELSE \* the output of target e.t was modified: its consumers are out of date (not e.t itself)
             /\ must' = must \cup (((DownTarget(script, e.t, "must") \ {e.t}) \cap Acts(script)) \ SymCopies(script))
+                            \cup ArOf(LAMBDA o : ObjReadsTarget(script, o, e.t))
             /\ may' = may \cup ((DownTarget(script, e.t, "may") \ {e.t}) \cap Acts(script))
+                          \cup ArOf(LAMBDA o : ObjReadsTarget(script, o, e.t))
             /\ omust' = omust \cup { o \in Objs(script) : ObjReadsTarget(script, o, e.t) }
             /\ omay' = omay \cup { o \in Objs(script) : ObjReadsTarget(script, o, e.t) }
   /\ UNCHANGED script
